@@ -32,10 +32,11 @@ ASSUMPTIONS = ['an Undefined entry is the unbound state: identity and round-trip
 PLAN = {
     'quick': [('core', 3, (('x', 'y'),), (('x',), ('x', 'y'))), ('jumps', 4, (('x',),), (('x',),)), ('try', 3, (('x',),), (('x',),)),
               ('clos', 3, (('x',),), (('x',),)), ('expr', 3, (('x',),), (('x',),)), ('state', 3, (('x', 'y'),), (('x', 'y'), ())),
-              ('callee', 2, (('x',),), (('x',),))],
+              ('callee', 2, (('x',),), (('x',),)), ('compidx', 3, ((),), ((),)), ('alias', 3, (('x',),), ((),)), ('targets', 3, (('x', 'y'),), ((),))],
     'thorough': [('core', 4, (('x', 'y'),), (('x',), ('x', 'y'))), ('jumps', 5, (('x',),), (('x',),)), ('try', 4, (('x',),), (('x',),)),
                  ('clos', 4, (('x',),), (('x',),)), ('expr', 4, (('x',),), (('x',),)), ('state', 4, (('x', 'y'),), (('x', 'y'), ())),
-                 ('callee', 3, (('x',),), (('x',),))],
+                 ('callee', 3, (('x',),), (('x',),)), ('compidx', 4, ((),), ((),)), ('alias', 4, (('x',),), ((),)),
+                 ('targets', 4, (('x', 'y'),), ((),))],
 }
 CAP = c01.CAP
 DEV = c01.DEV
